@@ -10,7 +10,8 @@ EXTENDS Core
 
 (***************************************************************************)
 (* Calls: <<kind, a, b, c, d>>                                             *)
-(*  1 addnode  n t tid flags(1=force,2=no position,4=no time,8=no track id)*)
+(*  1 addnode  n t tid flags(1=force,2=no position,4=no time,8=no track id,*)
+(*                           16=partial per-axis position)                *)
 (*  2 addedge  u v force                                                   *)
 (*  3 deledge  u v                                                         *)
 (*  4 delnode  n                                                           *)
@@ -47,7 +48,8 @@ Stroke(t, bits) == {q \in Pix : FrameOf(q) = t /\ Bit(bits, InFrame(q))}
 
 AddNodeArgs(c) ==
     [n |-> c[2], t |-> IF Bit(c[5], 2) THEN NoT ELSE c[3], tid |-> IF Bit(c[5], 3) THEN None ELSE c[4],
-     pos |-> IF Bit(c[5], 1) \/ HasSeg THEN NoPos ELSE UserPos(c[2]), cust |-> None,
+     \* flag 2: no position; flag 16: only part of a per-axis position - both are "no position"
+     pos |-> IF Bit(c[5], 1) \/ Bit(c[5], 4) \/ HasSeg THEN NoPos ELSE UserPos(c[2]), cust |-> None,
      force |-> Bit(c[5], 0), px |-> {}, pxnone |-> TRUE]
 
 \* results are normalised to [s, ok, err, emit, ret]
